@@ -24,7 +24,8 @@ type Caller struct {
 
 // Scenario is a set of callers of one OnceN value.
 type Scenario struct {
-	N       int      `json:"n"` // 1, 2 or 3 results
+	N       int      `json:"n"`               // 1, 2 or 3 results
+	Iface   bool     `json:"iface,omitempty"` // N==1 only: the result type is an interface and the functions return nil
 	Callers []Caller `json:"callers"`
 }
 
@@ -47,12 +48,18 @@ func (H) Decode(b []byte) (any, error) {
 // Describe implements core.Harness.
 func (H) Describe(sc any) string {
 	s := sc.(*Scenario)
+	if s.Iface {
+		return fmt.Sprintf("Once1[any] returning nil, callers=%+v", s.Callers)
+	}
 	return fmt.Sprintf("Once%d callers=%+v", s.N, s.Callers)
 }
 
 // Generate implements core.Harness.
 func (H) Generate(r *simrt.Rand, tier string) any {
 	s := &Scenario{N: 1 + r.Intn(3)}
+	if s.N == 1 && r.Intn(3) == 0 {
+		s.Iface = true
+	}
 	n := 2 + r.Intn(5)
 	for i := 0; i < n; i++ {
 		c := Caller{Inner: r.Intn(4)}
@@ -78,18 +85,18 @@ func (H) Shrink(sc any) []any {
 		if len(s.Callers) <= 1 {
 			break
 		}
-		c := &Scenario{N: s.N}
+		c := &Scenario{N: s.N, Iface: s.Iface}
 		c.Callers = append(append([]Caller(nil), s.Callers[:i]...), s.Callers[i+1:]...)
 		out = append(out, c)
 	}
 	for i, cl := range s.Callers {
 		if cl.Panic {
-			c := &Scenario{N: s.N, Callers: append([]Caller(nil), s.Callers...)}
+			c := &Scenario{N: s.N, Iface: s.Iface, Callers: append([]Caller(nil), s.Callers...)}
 			c.Callers[i].Panic = false
 			out = append(out, c)
 		}
 		if cl.Delay > 0 || cl.Inner > 0 || cl.Again > 0 {
-			c := &Scenario{N: s.N, Callers: append([]Caller(nil), s.Callers...)}
+			c := &Scenario{N: s.N, Iface: s.Iface, Callers: append([]Caller(nil), s.Callers...)}
 			if cl.Delay > 0 {
 				c.Callers[i].Delay = 0
 			} else if cl.Again > 0 {
@@ -101,6 +108,16 @@ func (H) Shrink(sc any) []any {
 		}
 	}
 	return out
+}
+
+func winnerOf(invoked []int) int {
+	w := -1
+	for i, n := range invoked {
+		if n > 0 {
+			w = i
+		}
+	}
+	return w
 }
 
 type actionPanic struct{}
@@ -116,6 +133,7 @@ type result struct {
 func (H) Execute(scAny any, cfg simrt.Config, st *core.Stats) (*simrt.Outcome, *core.Violation) {
 	sc := scAny.(*Scenario)
 	var o1 sync2.Once1[int]
+	var oi sync2.Once1[any] // interface-typed result: the action returns nil
 	var o2 sync2.Once2[int, int]
 	var o3 sync2.Once3[int, int, int]
 	invoked := make([]int, len(sc.Callers)) // per function: each slot written by the task that runs it
@@ -159,12 +177,18 @@ func (H) Execute(scAny any, cfg simrt.Config, st *core.Stats) (*simrt.Outcome, *
 								res.panicked = true
 							}
 						}()
-						switch sc.N {
-						case 1:
+						switch {
+						case sc.N == 1 && sc.Iface:
+							got := oi.Do(func() any { body(); return nil })
+							res.r[0] = (winnerOf(invoked)+1)*10 + 1 // nil is the only possible value: encode "as expected"
+							if got != nil {
+								res.r[0] = -1
+							}
+						case sc.N == 1:
 							res.r[0] = o1.Do(func() int { body(); return (i+1)*10 + 1 })
-						case 2:
+						case sc.N == 2:
 							res.r[0], res.r[1] = o2.Do(func() (int, int) { body(); return (i+1)*10 + 1, (i+1)*10 + 2 })
-						case 3:
+						case sc.N == 3:
 							res.r[0], res.r[1], res.r[2] = o3.Do(func() (int, int, int) { body(); return (i+1)*10 + 1, (i+1)*10 + 2, (i+1)*10 + 3 })
 						}
 					}()
